@@ -382,6 +382,7 @@ def run(rep):
             # stores are SW [.., def] and refills LW [use, ..]: the register operand is the loop variable
         # the slot table is shared: both loops index spill_offsets_bytes with the register they handle
     rep.floor("R6-emitted-after-def-use-lookup", 4)
+    rule_coalescing(rep)
 
 
 def _derives_from_call(f, o, call, depth=8):
@@ -553,3 +554,78 @@ def _same_index(ig):
                                 if nm2 != "ix":
                                     ok = False
     return ok and found >= 2
+
+
+RA_FILE = "sway-core/src/asm_generation/fuel/register_allocator.rs"
+
+
+def rule_coalescing(rep):
+    """R7/R8 on coalesce_registers (syntax tree).
+    R7 union-find discipline: once an operand x of the MOVE has been resolved to its representative
+       (`let mut r = x; while let Some(t) = map.get(r) { r = t; }`), the unresolved x is not used again in that arm: the graph node,
+       the neighbour sets and the map updates belong to the representative. (reg_to_node_map is only kept one level deep, so the
+       node of an already-merged register is a removed node without neighbours: every safety check passes trivially.)
+    R8 flag discipline: a MOVE resets $of/$err like every ALU instruction, so the arm that drops a MOVE is guarded by a condition
+       derived from the liveness of those two registers (findings/F15)."""
+    t = tab.tree(RA_FILE)
+    f = tab.fn(t, "coalesce_registers")
+    # ---- R7 ----------------------------------------------------------------------------------------------------------------
+    n7 = 0
+    for blk in [b for b in tab.walk(f["body"]) if b.get("k") == "Block"]:
+        st = blk["stmts"]
+        for i, s_ in enumerate(st[:-1]):
+            if s_.get("k") != "Let" or s_.get("init") is None or s_["init"].get("k") != "Path":
+                continue
+            rname = [x["name"] for x in tab.walk(s_["pat"]) if x.get("k") == "PIdent"]
+            orig = s_["init"]["path"]
+            w = st[i + 1]
+            if not rname or w.get("k") != "While" or w["cond"].get("k") != "LetCond":
+                continue
+            r = rname[0]
+            get = w["cond"]["expr"]
+            chases = get.get("k") == "MethodCall" and get["method"] == "get" and tab.show(get["args"][0]).lstrip("&") == r and \
+                any(a.get("k") == "Assign" and tab.show(a["left"]) == r for a in tab.walk(w["body"]))
+            if not chases:
+                continue
+            n7 += 1
+            later = [x for s2 in st[i + 2:] for x in tab.walk(s2) if x.get("k") == "Path" and x["path"] == orig]
+            # a later root-chase of another operand (`let mut r2 = y`) is the only legitimate mention of an original operand
+            later = [x for x in later if not any(s2.get("k") == "Let" and s2.get("init") is x for s2 in st[i + 2:])]
+            # recording the result of the resolution itself, `map.insert(<orig>, <representative>)`, is the other legitimate mention
+            recorded = [x["args"][0] for s2 in st[i + 2:] for x in tab.walk(s2) if x.get("k") == "MethodCall" and x["method"] == "insert" and
+                        len(x["args"]) == 2 and tab.show(x["args"][0]) == orig and tab.show(x["args"][1]) == r]
+            later = [x for x in later if not any(x is y for y in recorded)]
+            rep.ob("R7-representative-used-after-resolution", f"{orig}->{r}", not later, RA_FILE, later[0]["l"] if later else s_["l"],
+                   f"`{orig}` was resolved to its representative `{r}` but is used again afterwards: the interference-graph node, neighbour sets and "
+                   f"map updates must be those of `{r}` (a merged register's own node has been removed from the graph and has no neighbours)")
+    rep.floor("R7-representative-used-after-resolution", 3, n7)
+    # ---- R8 ----------------------------------------------------------------------------------------------------------------
+    g_names = set()
+    lets = tab.lets(f["body"])
+    changed = True
+    while changed:
+        changed = False
+        for l, names, pat, init in lets:
+            if init is None or not names or names[0] in g_names:
+                continue
+            txt = tab.show(init)
+            if re.search(r"ConstantRegister::(Overflow|Error)|def_const_registers", txt) or any(re.search(r"\b%s\b" % re.escape(g), txt) for g in g_names):
+                g_names.add(names[0])
+                changed = True
+    arms = [a for m in tab.matches_in(f["body"]) for a in m["arms"] if tab.show(a["pat"]).replace(" ", "") .startswith("(VirtualRegister::Virtual(_),VirtualRegister::Virtual(_))")]
+    if len(arms) != 1:
+        raise AnalysisError(f"coalesce_registers: expected one arm for a MOVE between two virtual registers, found {len(arms)}")
+    arm = arms[0]
+    guard = tab.show(arm.get("guard") or {}) if arm.get("guard") else ""
+    guarded = any(re.search(r"\b%s\b" % re.escape(g), guard) for g in g_names)
+    if not guarded:
+        # or: an early `if <flag condition> { push; continue }` as the first statement of the arm
+        body = arm["body"]
+        first = body["stmts"][0] if body.get("k") == "Block" and body["stmts"] else {}
+        if first.get("k") == "If" and any(re.search(r"\b%s\b" % re.escape(g), tab.show(first["cond"])) for g in g_names):
+            guarded = any(x.get("k") == "MethodCall" and x["method"] == "push" for x in tab.walk(first["then"])) and \
+                any(x.get("k") == "Continue" for x in tab.walk(first["then"]))
+    rep.ob("R8-coalescing-keeps-moves-that-reset-live-flags", "coalesce_registers", guarded, RA_FILE, arm["l"],
+           "the arm that drops a MOVE between two virtual registers is not guarded by the liveness of $of/$err: the MOVE resets both, and a later "
+           "direct read of $of/$err would see the flag of an earlier instruction")
+
